@@ -44,7 +44,7 @@ THEOREMS = [
     # definitions regenerated from Box.py on every run = the hand-written model (Proofs/C01_Source.lean)
     'C01.src_state_protocol', 'C01.src_r2c', 'C01.src_c2r', 'C01.src_cacheFill', 'C01.src_obj_c2r', 'C01.src_planes',
     'C01.src_volume', 'C01.src_isLammpsNorm', 'C01.src_lammps_getters', 'C01.src_abc_sq', 'C01.src_set_lengths',
-    'C01.src_set_hi_los', 'C01.src_set_abc', 'C01.src_angles',
+    'C01.src_set_hi_los', 'C01.src_set_abc', 'C01.src_angles', 'C01.src_below', 'C01.src_inside',
 ]
 PARTIAL = {
     'angles_in_degrees': 'read-back of lengths and angles is proved in squared / cosine form over every ordered field '
@@ -92,6 +92,7 @@ GENERATED = ['BoxSource']
 # ----------------------------------------------------------------------------------------
 def translate():
     import ast
+    import re
     from ..translate import TranslationError
 
     src = cm.source('atomman/core/Box.py')
@@ -547,6 +548,86 @@ def translate():
     A('def abcLySq (a b c ca cb cg : K) : K :=\n  ' + '\n  '.join(radic['ly'][0] + [radic['ly'][1]]))
     A('/-- the value under the second square root of `set_abc`. -/')
     A('def abcLzSq (a b c ca cb cg ly : K) : K :=\n  ' + '\n  '.join(radic['lz'][0] + [radic['lz'][1]]))
+    # ---- inside / Plane.below / Shape.outside -----------------------------------------------
+    ib = body('inside')
+    if not (len(ib) == 2 and ast.unparse(ib[0]) == 'planes = self.planes' and isinstance(ib[1], ast.Return)):
+        fail('inside is not `planes = self.planes; return <conjunction>`')
+    terms = []
+
+    def flat(n):
+        if isinstance(n, ast.BinOp) and isinstance(n.op, ast.BitAnd):
+            flat(n.left)
+            flat(n.right)
+        else:
+            terms.append(n)
+    flat(ib[1].value)
+    idx = []
+    for tm in terms:
+        m = re.fullmatch(r'planes\[(\d)\]\.below\(pos, inclusive=inclusive\)', ast.unparse(tm))
+        if m is None:
+            fail(f'inside term {ast.unparse(tm)}')
+        idx.append(int(m.group(1)))
+    if 'outside' in meths:
+        fail('Box overrides outside')
+    A('/-- `inside` = conjunction (`&`) of `planes[i].below(pos, inclusive=inclusive)` over these `i`. -/')
+    A('def insidePlanes : List Nat := [' + ', '.join(map(str, idx)) + ']')
+    psrc = cm.source('atomman/region/Plane.py')
+    ptree = ast.parse(psrc)
+    pcls = [n for n in ptree.body if isinstance(n, ast.ClassDef) and n.name == 'Plane']
+    if len(pcls) != 1:
+        fail('class Plane not found')
+    pm = {}
+    for n in pcls[0].body:
+        if isinstance(n, ast.FunctionDef):
+            nm = n.name + ('.setter' if any(isinstance(d, ast.Attribute) and d.attr == 'setter' for d in n.decorator_list) else '')
+            pm[nm] = [st for st in n.body if not (isinstance(st, ast.Expr) and isinstance(st.value, ast.Constant))]
+    for need in ('normal', 'normal.setter', 'point', 'point.setter', 'below'):
+        if need not in pm:
+            fail(f'Plane.{need} missing')
+    ns = [ast.unparse(st) for st in pm['normal.setter']]
+    unit = len(ns) == 3 and ns[0] == 'value = np.asarray(value)' and ns[1].startswith('assert value.shape == (3,)') \
+        and ns[2] == 'self.__normal = value / np.linalg.norm(value)' and [ast.unparse(st) for st in pm['normal']] == ['return self.__normal']
+    ps = [ast.unparse(st) for st in pm['point.setter']]
+    pt_ok = len(ps) == 3 and ps[0] == 'value = np.asarray(value)' and ps[2] == 'self.__point = value' \
+        and [ast.unparse(st) for st in pm['point']] == ['return self.__point']
+    A('/-- `Plane.normal` stores `value / np.linalg.norm(value)`, `Plane.point` stores the point as given. -/')
+    A(f'def planeStoresUnitNormalAndPoint : Bool := {"true" if (unit and pt_ok) else "false"}')
+    bb = pm['below']
+    if not (len(bb) == 4 and ast.unparse(bb[0]) == 'pos = np.asarray(pos)' and isinstance(bb[3], ast.If)
+            and ast.unparse(bb[3].test) == 'inclusive' and len(bb[3].body) == 1 and len(bb[3].orelse) == 1
+            and isinstance(bb[3].body[0], ast.Return) and isinstance(bb[3].orelse[0], ast.Return)):
+        fail('Plane.below is not asarray / normpoint / normpos / if inclusive: return … else: return …')
+    envb = {'pos': ('pos', 'V')}
+
+    class TrP(Tr):
+        def tr(self, n):
+            if isinstance(n, ast.Attribute) and isinstance(n.value, ast.Name) and n.value.id == 'self' and n.attr in ('normal', 'point'):
+                return n.attr, 'V'
+            if isinstance(n, ast.Call) and ast.unparse(n.func) == 'np.inner' and len(n.args) == 2:
+                a, b = self.tr(n.args[0]), self.tr(n.args[1])
+                if (a[1], b[1]) == ('V', 'V'):          # one point: inner of two 3-vectors
+                    return f'(V3.dot {a[0]} {b[0]})', 'K'
+            return super().tr(n)
+    tb_ = TrP(envb)
+    lets = []
+    for st in bb[1:3]:
+        if not (isinstance(st, ast.Assign) and isinstance(st.targets[0], ast.Name)):
+            fail(f'Plane.below statement {ast.unparse(st)}')
+        e, ty = tb_.tr(st.value)
+        lets.append(f'let {st.targets[0].id} := {e}')
+        tb_.env[st.targets[0].id] = (st.targets[0].id, ty)
+    yes = _cmp(bb[3].body[0].value, tb_, fail)
+    no = _cmp(bb[3].orelse[0].value, tb_, fail)
+    A('/-- `Plane.below` for one point; `normal` is the stored (unit) normal. -/')
+    A('def planeBelow (normal point pos : V3 K) (inclusive : Bool) : Bool :=\n  ' + '\n  '.join(lets)
+      + f'\n  if inclusive then {yes} else {no}')
+    ssrc = cm.source('atomman/region/Shape.py')
+    so = [n for c in ast.parse(ssrc).body if isinstance(c, ast.ClassDef) and c.name == 'Shape'
+          for n in c.body if isinstance(n, ast.FunctionDef) and n.name == 'outside']
+    sob = [st for st in (so[0].body if so else []) if not (isinstance(st, ast.Expr) and isinstance(st.value, ast.Constant))]
+    out_ok = len(sob) == 1 and ast.unparse(sob[0]) == 'return ~self.inside(pos, inclusive=not inclusive)'
+    A('/-- `Shape.outside` is `~self.inside(pos, inclusive=not inclusive)` and `Box` does not override it. -/')
+    A(f'def outsideIsNotInsideOpposite : Bool := {"true" if out_ok else "false"}')
     A('')
     A('end formulas')
     A('')
